@@ -413,6 +413,56 @@ pub fn run(cli: &Cli, rep: &Report) {
         Some(Case { cont: ovars[v].clone(), opts: oopts[g], input: Input::Shape(segs.clone()), ops: ops.clone(), bias: 0 })
     });
 
+    // Phase 6: short tails after a flush / after a preset dictionary. The match finders index a position only when enough
+    // look-ahead is available (nice_len bytes for BT4, 4 when finishing), so what is left pending by flush() or by the preset
+    // dictionary and is then caught up by finish() after only a few more bytes is a state of its own: EVERY tail length
+    // 1..=300 (quick: 1..=40 and every 7th up to 300), three low-entropy tail kinds, all mode x finder x nice combinations.
+    {
+        let mut tcases: Vec<Case> = vec![];
+        let ks: Vec<usize> = if thorough { (1..=300).collect() } else { (1..=300).filter(|k| *k <= 40 || k % 7 == 0 || (268..=276).contains(k)).collect() };
+        let mut topts = vec![];
+        for fast in [true, false] {
+            for bt4 in [false, true] {
+                for nice in [8u32, 32, 273] {
+                    topts.push(Opts { dict: 4096, lc: 3, lp: 0, pb: 2, fast, bt4, nice, depth: 0 });
+                }
+            }
+        }
+        for cont in [Container::Lzma2, Container::Lzma2Preset(300), Container::LzmaRawPreset(300), Container::LzmaHdrMarker] {
+            let preset = matches!(cont, Container::Lzma2Preset(_) | Container::LzmaRawPreset(_));
+            let lzma2 = matches!(cont, Container::Lzma2 | Container::Lzma2Preset(_));
+            for o in &topts {
+                for &k in &ks {
+                    for tail in [Seg::C(k), Seg::Z(k), Seg::D(37, k)] {
+                        // the tail alone (meaningful with a preset dictionary: the text tail repeats the preset's content)
+                        if preset {
+                            tcases.push(Case { cont: cont.clone(), opts: *o, input: Input::Shape(vec![tail.clone()]), ops: vec![], bias: 0 });
+                        }
+                        if lzma2 {
+                            for n0 in [60usize, 3000] {
+                                tcases.push(Case { cont: cont.clone(), opts: *o, input: Input::Shape(vec![Seg::C(n0), tail.clone()]), ops: vec![Op::Write(n0), Op::Flush], bias: 0 });
+                                if k % 5 == 1 {
+                                    tcases.push(Case {
+                                        cont: cont.clone(),
+                                        opts: *o,
+                                        input: Input::Shape(vec![Seg::C(n0), tail.clone(), Seg::D(k, 6)]),
+                                        ops: vec![Op::Write(n0), Op::Flush, Op::Write(k), Op::Flush],
+                                        bias: 0,
+                                    });
+                                }
+                            }
+                        } else if !preset {
+                            // LZMA1 has no flush that ends a chunk; a split write must still be harmless
+                            tcases.push(Case { cont: cont.clone(), opts: *o, input: Input::Shape(vec![Seg::C(60), tail.clone()]), ops: vec![Op::Write(60), Op::Flush], bias: 0 });
+                        }
+                    }
+                }
+            }
+        }
+        rep.extra("flush_tails", json!({"cases": tcases.len(), "tail_lengths": ks.len()}));
+        run_phase(rep, cli, "flush_tails", 0, tcases.len(), &|i| Some(tcases[i].clone()));
+    }
+
     // Non-vacuity: the mechanisms named in the property must have occurred in this run.
     if cli.only.is_none() {
         for (name, what) in [
